@@ -991,7 +991,7 @@ func (e *Env) call(n *ast.CallExpr) tv {
 		return tv{e.asSet(arg(0)), nil}
 	case "world":
 		return tv{worldOf(e.h()), nil}
-	case "ret", "worldAfter":
+	case "ret", "worldAfter", "retW", "worldAfterW":
 		// ret("K", j, args...) / worldAfter("K", args...): the result the deterministic contract K
 		// yields in the current (or old) world for these arguments
 		lit, ok := n.Args[0].(*ast.BasicLit)
@@ -1008,13 +1008,18 @@ func (e *Env) call(n *ast.CallExpr) tv {
 		}
 		first := 1
 		j := 0
-		if name == "ret" {
+		if name == "ret" || name == "retW" {
 			jt := e.evalInt(n.Args[1])
 			if !jt.IsInt() {
 				evalFail("ret: result index must be a literal")
 			}
 			j = int(jt.Int.Int64())
 			first = 2
+		}
+		var wExplicit *Term
+		if name == "retW" || name == "worldAfterW" {
+			wExplicit = e.evalInt(n.Args[first])
+			first++
 		}
 		var all []Value
 		nargs := sig.Params().Len()
@@ -1041,8 +1046,11 @@ func (e *Env) call(n *ast.CallExpr) tv {
 		}
 		argc := detArgs(sig, all)
 		w0 := worldOf(e.h())
-		if name == "worldAfter" {
-			if c.Pure {
+		if wExplicit != nil {
+			w0 = wExplicit
+		}
+		if name == "worldAfter" || name == "worldAfterW" {
+			if c.Pure || c.NoWorld {
 				return tv{w0, nil}
 			}
 			return tv{App("det|"+calleeShort(c.Key)+"|world", IntS, append([]*Term{w0}, argc...)...), nil}
